@@ -1,6 +1,7 @@
 // Witness TU (parsed only): exact, base-class (first and non-first base, two inheritance levels) and Kleene triggers competing in one
 // state and across a submachine level; back, back11 (where it accepts the declarations) and backmp11 flat_fold.
 #include <boost/msm/back/state_machine.hpp>
+#include <boost/msm/back/favor_compile_time.hpp>
 #include <boost/msm/back11/state_machine.hpp>
 #include <boost/msm/backmp11/state_machine.hpp>
 #include "Backmp11Adapter.hpp"
@@ -109,4 +110,7 @@ void we_use_nk()
 }
 template void we_use_nk<we_nk<boost::msm::back11::state_machine>>();
 template void we_use_nk<we_nk<boost::msm::back::state_machine>>();
+// favor_compile_time: exact and base-class triggers (no Kleene)
+template <class FE> using we_fct = boost::msm::back::state_machine<FE, boost::msm::back::favor_compile_time>;
+template void we_use_nk<we_nk<we_fct>>();
 }
